@@ -153,6 +153,16 @@ func (c *Ctx) outputRules(r *Report) {
 			r.Fail("OUT-gate", c.fname(pe), what, c.ipos(in), "printError writes to something other than os.Stdout/os.Stderr")
 		}
 	}
+	// wrapError turns a foreign error into ErrUnknown: it is reserved for the errors of option parsing in the
+	// argument loop (already typed there); every other conversion failure is typed ErrMarshal by marshalError
+	if we := c.Fn("wrapError"); we != nil {
+		sites, _ := c.callersOf(we)
+		for _, s := range sites {
+			t := c.term(s.Call.Common().Args[0])
+			ok := (s.Fn == pa || c.actsFor(s.Fn, pa)) && (strings.Contains(t, "call:(*Parser).parseLong(") || strings.Contains(t, "call:(*Parser).parseShort("))
+			r.Check(ok, "TYPED", c.fname(s.Fn), "wrapError applied to the option parsers' error only", c.ipos(s.Call), "in ParseArgs, on the result of parseLong/parseShort", "wrapError("+trunc(t, 60)+") in "+c.fname(s.Fn)+": a foreign error would surface as ErrUnknown instead of its documented type")
+		}
+	}
 	// once, and on every failing return
 	isPE := c.isCallTo("(*Parser).printError")
 	if d, ok := c.NeverTwice(pa, isPE, false, c.newFacts(pa)); ok {
